@@ -12,7 +12,7 @@ from simv.checks.common import COMMON_ASSUMPTIONS, base_result, exc_violation, p
 from simv.gen.adversarial import adversarial
 from simv.harness import cook_engine, execute_once, gen_case, make_plan, pick_scheduler, run_digest
 from simv.model.exec import OPAQUE, RefExec, _strip, poke
-from simv.model.schema import is_nn
+from simv.model.schema import is_nn, named
 from simv.oracle import V, check_envelope, first_diff, same
 from simv.tape import Tape
 
@@ -135,8 +135,23 @@ def run_one(seed, preset=None, tier="quick", want_case=False):
     for _ in range(n):
         path, ty, what, is_res = positions[ft.draw(len(positions))]
         chosen[path] = (ty, what, is_res, adversarial(ft))
+    # runtime-type corruption: what a (type-level or field-level) type resolver answers
+    type_override = {}
+    abstract_pos = [(p_, ty_) for p_, ty_, what_, _ in positions
+                    if case.schema.kind_of(named(ty_)) in ("INTERFACE", "UNION") and (ty_[0] == "N" or (ty_[0] == "NN" and ty_[1][0] == "N"))]
+    if abstract_pos and ft.chance(35):
+        class StrSubName(str):
+            pass
+        objs = [o.name for o in case.schema.objects()]
+        for _ in range(ft.rint(1, 2)):
+            p_, ty_ = abstract_pos[ft.draw(len(abstract_pos))]
+            pool = [None, 5, "", "Nope", [], {"a": 1}, object, b"T0", True, 1.5, ("T0",), StrSubName(ft.choose(objs)), ft.choose(objs),
+                    named(ty_), "Int", "__Type", ft.choose(objs).lower()]
+            type_override[p_] = pool[ft.draw(len(pool))]
     override = {}
     tainted = {}
+    for p_, g_ in type_override.items():
+        tainted[p_] = (dict((a, b) for a, b, _, _ in positions)[p_], "<type resolver answered %r>" % (g_,))
     for path, (ty, what, is_res, val) in chosen.items():
         tainted[path] = (ty, val)
         if what == "field" and is_res:
@@ -180,7 +195,7 @@ def run_one(seed, preset=None, tier="quick", want_case=False):
     try:
         engine = cook_engine(case.schema, name, cfg, sdl=case.sdl)
         out = execute_once(engine, case.text, case.op_name, case.variables, plan, tape.sub("sched"),
-                           sched[0], sched[1], sched[2], root_value=plan.root_value, override=override)
+                           sched[0], sched[1], sched[2], root_value=plan.root_value, override=override, type_override=type_override)
     finally:
         forget(name)
     viol = []
@@ -210,6 +225,8 @@ def run_one(seed, preset=None, tier="quick", want_case=False):
                 if not cf.value(actual, ty if not is_nn(ty) else ty, nodes, path) and not (actual is None):
                     viol.append(V("nonconforming_data", "corrupted position %r (declared %s, resolver supplied %r): %s" % (
                         list(path), ty, val, cf.why), kind="value"))
+                elif actual is None and expected is None and isinstance(val, str) and val.startswith("<type resolver answered"):
+                    pass  # the value is null anyway: the type resolver is not consulted
                 elif actual is None and val is not None and not explained(path):
                     viol.append(V("unexplained_null", "position %r is null, the resolver supplied %r, and no error has a path at or "
                                   "below it" % (list(path), val)))
@@ -270,7 +287,8 @@ def run_one(seed, preset=None, tier="quick", want_case=False):
     r["probes"] = {"corrupt_resolver_result": sum(1 for v in chosen.values() if v[1] == "field" and v[2]),
                    "corrupt_list_item": sum(1 for v in chosen.values() if v[1] == "item"),
                    "corrupt_default_resolved": sum(1 for v in chosen.values() if v[1] == "field" and not v[2]),
-                   "data_null_entirely": int(out.resp is not None and out.resp.get("data") is None)}
+                   "data_null_entirely": int(out.resp is not None and out.resp.get("data") is None),
+                   "corrupt_type_resolver_answer": len(type_override)}
     if viol:
         from simv.model.document import doc_to_json
         r["doc_model"] = doc_to_json(case.doc)
@@ -278,6 +296,7 @@ def run_one(seed, preset=None, tier="quick", want_case=False):
         c = case.render()
         c["engine_config"] = cfg
         c["corrupted"] = {repr(list(p)): "%s <- %r" % (v[0], v[3]) for p, v in chosen.items()}
+        c["type_resolver_answers"] = {repr(list(p)): repr(g) for p, g in type_override.items()}
         c["response"] = repr(out.resp)[:3000]
         c["reference_data_without_corruption"] = repr(plan.data)[:2000]
         r["case"] = c
